@@ -211,8 +211,19 @@ func LoadHarnessFiles(dir, prop string) ([]*Harness, map[string][]string, error)
 		}
 		// file-level directives: every comment group before the package clause
 		var fileDirs []string
+		entryDocs := map[*ast.CommentGroup]bool{}
+		for _, decl := range af.Decls {
+			if fd, ok := decl.(*ast.FuncDecl); ok && fd.Doc != nil {
+				for _, d := range parseDirectives(fd.Doc) {
+					if strings.HasPrefix(d, "entry") {
+						entryDocs[fd.Doc] = true
+					}
+				}
+			}
+		}
+		// every directive outside an entry's doc comment applies to the whole file
 		for _, cg := range af.Comments {
-			if cg.End() < af.Package {
+			if !entryDocs[cg] {
 				fileDirs = append(fileDirs, parseDirectives(cg)...)
 			}
 		}
